@@ -317,6 +317,14 @@ def sendG (c v : Opnd) : Res Unit :=
   | .chan _ t => if assignableG v (.s t) then .ok () else .err
   | _ => .err
 
+/-- type assertion `x.(T)`: x is of interface type; a concrete T must implement that interface (method names:
+    in the fragment all methods have the signature `func()` and value receivers, so `*N` has the methods of `N`);
+    for an interface T the assertion is always well-typed -/
+def assertG (typ : Ty) (x : Opnd) : Res Opnd :=
+  if !x.ty.isIface then .err
+  else if typ.isIface then .ok ⟨typ, .none⟩
+  else if subset x.ty.methods typ.methods then .ok ⟨typ, .none⟩ else .err
+
 def condG (c : Opnd) : Res Unit :=
   match c.ty with
   | .nil => .err
@@ -326,7 +334,7 @@ def retG (results : List STy) (vals : List (Shape × Opnd)) : Res Unit :=
   if allAssignableG results (vals.map (·.2)) then .ok () else .err
 
 def rulesG : Rules :=
-  { un := unG, recv := recvG, bin := binG, cmp := cmpG, shift := shiftG, conv := convG, index := indexG,
+  { un := unG, recv := recvG, bin := binG, cmp := cmpG, shift := shiftG, conv := convG, assert := assertG, index := indexG,
     call := callG, callValue := callValueG, assign := assignG, define := defineG, opassign := opassignG,
     shassign := shassignG, incdec := incdecG, send := sendG, cond := condG, ret := retG }
 
